@@ -47,6 +47,7 @@ class FnInfo:
         self.shared, self.arg, self.selfw, self.unknown, self.calls = [], [], [], [], []
         self.self_calls = []   # (method name, receiver kind) for method calls on self / self.attr / fresh / param receivers
         self.written_params = set()   # names of the parameters written through
+        self.method_calls = []        # (method name, [(keyword or None, category of the argument)]) for calls `<receiver>.name(...)`
 
 
 def base_name(expr):
@@ -83,6 +84,12 @@ class Analyzer:
             self.scan_module(mod, tree)
             self.scan_imports(mod, tree, {x[:-3] for x in os.listdir(self.pkgdir) if x.endswith(".py")})
         self.analyzed = set()
+        self.decorator_names = set()
+        for f in self.fns.values():
+            for d in f.node.decorator_list:
+                nm = self.decorator_name(d)
+                if nm:
+                    self.decorator_names.add(nm)
         for f in list(self.fns.values()):
             if f.qual not in self.analyzed:
                 self.analyze_fn(f)
@@ -194,10 +201,13 @@ class Analyzer:
         self.fns[qual] = FnInfo(qual, mod, cls, node)
 
     # -- per function -------------------------------------------------------
-    def analyze_fn(self, f):
+    def analyze_fn(self, f, captured=None):
         self.analyzed.add(f.qual)
         node = f.node
-        env = {}
+        # a nested function sees the names of the enclosing function; what they denote was decided there (a parameter of the
+        # enclosing function stays a parameter). Inside a function the package uses as a decorator the closure outlives the
+        # call, so everything it captured is shared state ("global").
+        env = dict(captured or {})
         args = node.args
         allargs = [a.arg for a in args.posonlyargs + args.args + args.kwonlyargs]
         if args.vararg:
@@ -215,6 +225,10 @@ class Analyzer:
         names = [self.decorator_name(d) for d in node.decorator_list]
         for d, name in zip(node.decorator_list, names):
             if name in CACHE_DECORATORS and (f.cls is None or "staticmethod" in names) and ".<locals>." not in f.qual:
+                continue
+            if name is not None and f"{f.module}.{name}" in self.fns and self.fns[f"{f.module}.{name}"].cls is None:
+                # a decorator written in the same module: its body and the closures it returns are functions of the module and are
+                # analysed like any other (see `analyze_fn(captured=...)`: what such a closure captured is shared state)
                 continue
             if isinstance(d, ast.Call) or (name not in OK_DECORATORS and name not in ("setter", "deleter", "getter")):
                 f.unknown.append(f"decorator {ast.unparse(d)}")
@@ -308,6 +322,7 @@ class Analyzer:
                         self.record_write(f, fn.value, env, f"mutating call .{fn.attr}() on")
                     recv = self.classify(f, fn.value, env)
                     f.calls.append(("attr", fn.attr, (recv, ast.unparse(fn.value)[:40])))
+                    f.method_calls.append((fn.attr, [(None, self.classify(f, a, env)) for a in n.args] + [(k.arg, self.classify(f, k.value, env)) for k in n.keywords]))
             elif isinstance(n, ast.Attribute) and n.attr in ("__dict__", "__globals__", "__class__"):
                 f.unknown.append(f"dynamic attribute {n.attr}")
             elif isinstance(n, (ast.NamedExpr,)):
@@ -399,7 +414,9 @@ class Analyzer:
             self.add_fn(f.module, f.cls, s, prefix=f.node.name + ".<locals>.")
             inner = self.fns[[k for k in self.fns if k.endswith(f.node.name + ".<locals>." + s.name)][-1]]
             saved = self.globals_declared
-            self.analyze_fn(inner)
+            top = f.qual.split(".<locals>.")[0]
+            persists = top.split(".")[-1] in self.decorator_names and self.fns.get(top) is not None and self.fns[top].cls is None
+            self.analyze_fn(inner, {k: ("global" if persists else v) for k, v in env.items()})
             self.globals_declared = saved
             env[s.name] = "fresh"
             f.calls.append(("nested", inner.qual, None))
@@ -435,7 +452,14 @@ class Analyzer:
 
     # -- call graph closure of self writes ----------------------------------------
     def method_candidates(self, name):
-        return [g for g in self.fns.values() if g.cls and g.node.name == name]
+        return [g for g in self.fns.values() if (g.cls or self.method_like(g)) and g.node.name == name]
+
+    @staticmethod
+    def method_like(g):
+        """a closure whose first parameter is called `self` and that writes through nothing else: built to be installed on a class (as
+        a method, or inside a property) by the function that returns it"""
+        a = g.node.args.args
+        return "<locals>" in g.qual and bool(a) and a[0].arg == "self" and g.written_params <= {"self"}
 
     def close_arg_writes(self):
         """A private helper function (leading underscore, module level) that writes through one of its parameters and is called by
@@ -447,15 +471,21 @@ class Analyzer:
         while changed:
             changed = False
             for f in self.fns.values():
-                for call in f.calls:
-                    if call[0] != "name" or not isinstance(call[2], list):
-                        continue
-                    cands = [g for g in self.fns.values() if g.cls is None and g.module == f.module and g.node.name == call[1]]
+                sites = [(call[1], call[2], False) for call in f.calls if call[0] == "name" and isinstance(call[2], list)]
+                sites += [(name, args, True) for name, args in f.method_calls]
+                for name, args, is_method in sites:
+                    if is_method:
+                        # a private method (`self._derive(buf, ...)`) that writes through a parameter other than `self`
+                        cands = [g for g in self.fns.values() if g.cls is not None and g.node.name == name and self.is_private(name)]
+                    else:
+                        cands = [g for g in self.fns.values() if g.cls is None and g.module == f.module and g.node.name == name]
                     for g in cands:
                         if not g.arg:
                             continue
                         pnames = [a.arg for a in g.node.args.args]
-                        for pos, (kw, cat) in enumerate(call[2]):
+                        if is_method and pnames and "staticmethod" not in [self.decorator_name(d) for d in g.node.decorator_list]:
+                            pnames = pnames[1:]
+                        for pos, (kw, cat) in enumerate(args):
                             pname = kw if kw is not None else (pnames[pos] if pos < len(pnames) else None)
                             if pname is not None and g.written_params and pname not in g.written_params:
                                 continue          # this argument lands in a parameter the helper does not write through
@@ -467,6 +497,10 @@ class Analyzer:
                                     # which of the caller's own parameters: the names in the argument expression are not kept; mark all as suspect
                                     f.written_params.update(a.arg for a in f.node.args.args)
                                 changed = True
+
+    @staticmethod
+    def is_private(leaf):
+        return leaf.startswith("_") and not (leaf.startswith("__") and leaf.endswith("__"))
 
     def close_self_writes(self):
         """a method call on `self` / `self.<attr>` of a method that writes its own `self` is a self write;
@@ -483,7 +517,7 @@ class Analyzer:
                     # property setters are reached by attribute assignment, handled as stores
                     if not cands:
                         continue
-                    if any(g.selfw for g in cands):
+                    if any(g.selfw or (self.method_like(g) and g.arg) for g in cands):
                         cat, txt = recv
                         desc = f"call of self-writing method .{name}() on {txt}"
                         tgt = {"self": f.selfw, "param": f.arg, "global": f.shared, "unknown": f.unknown}.get(cat)
@@ -520,7 +554,13 @@ def emit(an, path):
         if private and leaf in called and f.cls is not None:
             f = FnInfo(f.qual, f.module, f.cls, f.node)
             g = an.fns[q]
-            f.shared, f.arg, f.unknown, f.selfw = g.shared, g.arg, g.unknown, []
+            f.shared, f.arg, f.unknown, f.selfw = g.shared, [], g.unknown, []      # argument writes: charged to the callers by `close_arg_writes`
+        elif an.method_like(f) and f.arg:
+            # installed on a class by the function that built it: reached by an attribute store (a property setter - the store is
+            # charged to whoever makes it), by a method call (charged by `close_self_writes`) or by name (`close_arg_writes`)
+            f = FnInfo(f.qual, f.module, f.cls, f.node)
+            g = an.fns[q]
+            f.shared, f.arg, f.unknown, f.selfw = g.shared, [], g.unknown, g.selfw
         elif private and f.cls is None and leaf in called_by_name and "<locals>" not in q:
             f = FnInfo(f.qual, f.module, f.cls, f.node)
             g = an.fns[q]
